@@ -12,6 +12,7 @@ mod c14;
 mod c15;
 mod c16;
 mod c17;
+mod c18;
 mod c19;
 mod c20;
 mod ctl;
@@ -54,6 +55,7 @@ fn main() {
             "C14" => c14::replay(&mut rep, &v),
             "C15" => c15::replay(&mut rep, &v),
             "C16" => c16::replay(&mut rep, &v),
+            "C18" => c18::replay(&mut rep, &v),
             _ => rep.notes.push(format!("HARNESS-ERROR: no replay handler for {prop}")),
         }
         let text = serde_json::to_string_pretty(&rep.to_json()).unwrap();
@@ -74,6 +76,7 @@ fn main() {
         "C15" => c15::run(&mut rep, &tier, seed),
         "C16" => c16::run(&mut rep, &tier, seed),
         "C17" => c17::run(&mut rep, &tier, seed),
+        "C18" => c18::run(&mut rep, &tier, seed),
         "C19" => c19::run(&mut rep, &tier, seed),
         "C20" => c20::run(&mut rep, &tier, seed),
         other => Err(format!("no harness for property {other}")),
